@@ -338,7 +338,7 @@ def harness_build(pkgs, timeout=3000):
     render_harness()
     if isinstance(pkgs, str):
         pkgs = [pkgs]
-    cmd = ["cargo", "build", "--offline"]
+    cmd = ["cargo", "build", "--offline", "-j", os.environ.get("VERIF_CARGO_JOBS", str(NCPU))]
     for p in pkgs:
         cmd += ["-p", p]
     try:
